@@ -542,6 +542,10 @@ def crouter_jobs(tier, seed):
     for vi, (variant, n) in enumerate((('mon', 24000), ('asan', 6000)) if q else (('mon', 2000000), ('asan', 200000), ('mon-ndebug', 400000))):
         for frm, cnt in split(n, 4 if q else 8):
             jobs.append(Job('h_crouter', variant, pseed(seed, 'C11', 20 + vi), frm, cnt, ['mode=lin'], label=variant + '/lin'))
+    # fast churn with exactly known answers (no callback sleeps, the tree is restructured at full speed)
+    for vi, (variant, n) in enumerate((('mon', 32), ('asan', 16)) if q else (('mon', 2400), ('asan', 600), ('mon-ndebug', 600))):
+        for frm, cnt in split(n, 4 if q else 8):
+            jobs.append(Job('h_crouter', variant, pseed(seed, 'C11', 40 + vi), frm, cnt, ['mode=fast'], label=variant + '/fast'))
     return jobs
 
 
@@ -550,7 +554,7 @@ SPECS['C11'] = dict(
     jobs=crouter_jobs,
     parallel=8,
     require={'any': {'histories': 100, 'notifiesWithCallbacks': 5000, 'snapshotsWithConcurrentWrite': 2000, 'writesOverlappingNotify': 5000, 'unsubscribes': 3000, 'shrinks': 1000,
-                     'linHistoriesWithOverlap': 8000},
+                     'linHistoriesWithOverlap': 8000, 'fastChurnOperations': 500000},
              },
     evidence=lambda agg, samples, distinct, tier: cov(
         agg.get('histories', 0), distinct,
@@ -559,11 +563,12 @@ SPECS['C11'] = dict(
         'entered after that observer\'s unsubscribe returned; no write operation called and returned inside one delivery; the reached/missed observers are explained by one instant in [call, return] (exact interval '
         'arithmetic); nobody reached twice; exists/depth consistent with completed subscriptions. In addition tens of thousands of SMALL histories (2-4 threads x 2-4 operations after a short prologue) are '
         'decided completely: a backtracking search looks for a total order that respects real time and, replayed on the sequential SubjectRouter, reproduces every result (notify: return value and set of '
-        'observers reached; exists; depth); none found = not linearizable, search budget exhausted = inconclusive. non-trivial = history containing a judged notify that overlapped a subscribe/unsubscribe of a matching observer; '
+        'observers reached; exists; depth); none found = not linearizable, search budget exhausted = inconclusive. A third mode churns the tree at full speed (no callback sleeps) with the key space '
+        'partitioned among the threads, so that every result of exists / depth / notify is known exactly. non-trivial = history containing a judged notify that overlapped a subscribe/unsubscribe of a matching observer; '
         'distinct = fingerprints of the order of operation returns',
         samples, observed=pick(agg, 'histories', 'ops', 'notifies', 'notifiesWithCallbacks', 'callbacks', 'subscribes', 'unsubscribes', 'shrinks', 'existsCalls', 'depthCalls', 'writesOverlappingNotify',
                                'snapshotsJudged', 'snapshotsWithConcurrentWrite', 'missedObserversJudged', 'maxThreads', 'delaysInjected', 'lockParks',
-                               'linHistories', 'linOperations', 'linSearchNodes', 'linInconclusive', 'linHistoriesWithOverlap')),
+                               'linHistories', 'linOperations', 'linSearchNodes', 'linInconclusive', 'linHistoriesWithOverlap', 'fastChurnCases', 'fastChurnOperations')),
     assumptions=['mute/unmute and in-callback invalidation are excluded: the quantifier does not list them and they bypass the lock by design', 'callbacks do not call back into the router',
                  'large histories: every rule is a necessary condition of linearizability (such a check can miss non-linearizable histories that satisfy all four rules); small histories: complete search, the sequential SubjectRouter is the specification'],
     manifest=dict(engine='h_crouter', text='Offline checker over stamped call/return/callback events of real multi-threaded histories: four necessary conditions of linearizability decided exactly per notify '
